@@ -16,19 +16,20 @@ inductive EvalErr where
   | valueError | typeError
   deriving Repr, DecidableEq
 
-/-- evaluation state, kept beside the `World` (indexed by the same handles) -/
+/-- evaluation state, kept beside the `World` (indexed by the same handles).  Since the `fix:` commit on
+`eval()`, derived objects are recomputed at each call: only leaves carry state. -/
 structure EvalSt where
   sols : Array Solution := #[]
-  exVal : List (Nat × Coef) := []            -- cached `_value` of expression objects (non-leaf cache, and leaves)
-  consVal : List (Nat × Coef) := []          -- cached `_value` of constraints
+  exVal : List (Nat × Coef) := []            -- `_value` of the LEAF expressions (set at each successful solve)
+  consVal : List (Nat × Coef) := []          -- (unused since the fix: constraints are re-evaluated at each call)
   consDual : List (Nat × Coef) := []         -- `_dual_variable_value`
-  ptEpoch : List (Nat × Nat) := []           -- non-leaf points: solve index at which `_value` was cached
+  ptEpoch : List (Nat × Nat) := []           -- (unused since the fix)
   deriving Repr
 
 def EvalSt.last (s : EvalSt) : Option Solution := s.sols.back?
 
-/-- a successful solve: leaves get the new values (caches of non-leaf objects are *not* touched),
-sent scalar constraints get multiplier tokens `1000 + position` -/
+/-- a successful solve: leaves get the new values, sent scalar constraints get multiplier tokens
+`1000 + position` -/
 def leafValue (w : World) (sol : Solution) (h : Nat) : Option Coef :=
   ((w.exs[h]?).bind (·.leaf)).map (fun c => sol.F.getD c 0)
 
@@ -58,40 +59,36 @@ def evalGFRat (sol : Solution) (d : EDict) : Option Coef :=
     | .ip i j => do let g ← lookupG sol i j; some (a + kc.2 * g)
     | .one => some (a + kc.2)) (some 0)
 
-/-- `Expression.eval()` -/
+/-- `Expression.eval()`: a leaf returns the value stored by the latest successful solve; a combination
+is recomputed from the leaf values at every call (the state is returned unchanged) -/
 def evalExpr (w : World) (s : EvalSt) (h : Nat) : Except EvalErr (Coef × EvalSt) :=
-  match s.exVal.lookup h with
-  | some v => .ok (v, s)
-  | Option.none =>
-    match w.exs[h]? with
-    | Option.none => .error .valueError
-    | some e =>
-      if e.leaf.isSome then .error .valueError
-      else
-        match s.last with
-        | Option.none =>
-          -- no solve yet: the first leaf met raises; an empty / constant expression evaluates
-          if e.d.all (fun kc => kc.1 == EKey.one) then
-            let v := (e.d.map (·.2)).foldl (· + ·) 0
-            .ok (v, { s with exVal := (h, v) :: s.exVal })
-          else .error .valueError
-        | some sol =>
-          match evalGFRat sol e.d with
-          | some v => .ok (v, { s with exVal := (h, v) :: s.exVal })
-          | Option.none => .error .valueError
+  match w.exs[h]? with
+  | Option.none => .error .valueError
+  | some e =>
+    if e.leaf.isSome then
+      match s.exVal.lookup h with
+      | some v => .ok (v, s)
+      | Option.none => .error .valueError
+    else
+      match s.last with
+      | Option.none =>
+        -- no solve yet: the first leaf met raises; an empty / constant expression evaluates
+        if e.d.all (fun kc => kc.1 == EKey.one) then .ok ((e.d.map (·.2)).foldl (· + ·) 0, s)
+        else .error .valueError
+      | some sol =>
+        match evalGFRat sol e.d with
+        | some v => .ok (v, s)
+        | Option.none => .error .valueError
 
 /-- `Constraint.eval()`: a `ValueError` of the expression is re-raised as the constraint's own
 `ValueError` (`except ValueError:`) -/
 def evalCons (w : World) (s : EvalSt) (h : Nat) : Except EvalErr (Coef × EvalSt) :=
-  match s.consVal.lookup h with
-  | some v => .ok (v, s)
-  | Option.none =>
-    match w.cons[h]? with
-    | Option.none => .error .valueError
-    | some c =>
-      match evalExpr w s c.e with
-      | .ok (v, s') => .ok (v, { s' with consVal := (h, v) :: s'.consVal })
-      | .error _ => .error .valueError
+  match w.cons[h]? with
+  | Option.none => .error .valueError
+  | some c =>
+    match evalExpr w s c.e with
+    | .ok (v, s') => .ok (v, s')
+    | .error _ => .error .valueError
 
 /-- `Constraint.eval_dual()` -/
 def evalDual (s : EvalSt) (h : Nat) : Except EvalErr Coef :=
@@ -99,8 +96,7 @@ def evalDual (s : EvalSt) (h : Nat) : Except EvalErr Coef :=
   | some v => .ok v
   | Option.none => .error .valueError
 
-/-- squared norm of `Point.eval()`; leaves always report the latest solve, non-leaf points the
-solve at which they were first evaluated -/
+/-- squared norm of `Point.eval()`: leaves and combinations alike report the latest solve -/
 def evalPointNormSq (w : World) (s : EvalSt) (h : Nat) : Except EvalErr (Coef × EvalSt) :=
   match w.pts[h]? with
   | Option.none => .error .valueError
@@ -119,18 +115,12 @@ def evalPointNormSq (w : World) (s : EvalSt) (h : Nat) : Except EvalErr (Coef ×
       | Option.none => .error .valueError
       | some sol => match normAt sol with | some v => .ok (v, s) | Option.none => .error .valueError
     | Option.none =>
-      match s.ptEpoch.lookup h with
-      | some k =>
-        match s.sols[k]? with
-        | some sol => match normAt sol with | some v => .ok (v, s) | Option.none => .error .valueError
+      match s.last with
+      | Option.none => if p.d.isEmpty then .ok (0, s) else .error .valueError
+      | some sol =>
+        match normAt sol with
+        | some v => .ok (v, s)
         | Option.none => .error .valueError
-      | Option.none =>
-        match s.last with
-        | Option.none => if p.d.isEmpty then .ok (0, s) else .error .valueError
-        | some sol =>
-          match normAt sol with
-          | some v => .ok (v, { s with ptEpoch := (h, s.sols.size - 1) :: s.ptEpoch })
-          | Option.none => .error .valueError
 
 /-- what `check_feasibility` evaluates (and therefore caches) during a successful solve: every
 sent constraint, every entry of every sent LMI -/
